@@ -6,7 +6,13 @@ epub_extractor._XhtmlTextExtractor (per-call skip state + complete final object 
 character soup tokenised by the real HTMLParser, (C) synthetic handler-call sequences driven
 straight into the real handlers; tie of the Spec's `events` to what HTMLParser really delivers;
 and the property oracle itself (token documents) end to end through read_html, read_mhtml,
-read_epub, msg_email_extractor (stubbed MSG container)."""
+read_epub, msg_email_extractor (stubbed MSG container).
+
+HISTORIES (Props/C17_Life.lean): the same comparison for every parser object the real readers create while they read
+2-4 documents in a row (chapters of one EPUB; consecutive read_html / read_mhtml / MSG-body calls), some of which end
+inside a removed element that is never closed or in the middle of a markup construct: one new object per document, state
+after every real feed = model run from `init`, = right-hand side of `C17_book`; and the property oracle on histories
+(confirmed and shrunk in a new interpreter, because state kept at module / class level outlives the document)."""
 from __future__ import annotations
 
 import base64
@@ -18,14 +24,18 @@ import zipfile
 
 from run import Broken, Violation
 
-GEN = ["HtmlSkip", "PyHtmlTree", "PyEpubXhtml"]
+GEN = ["HtmlSkip", "HtmlLife", "PyHtmlTree", "PyEpubXhtml"]
 RULE = ("documents = flat sequences of visible items (text, open/close/self-closed tags of block, inline, table, void "
         "and unknown elements, stray end tags, unclosed tags) interleaved at every position with removed elements "
         "(script, style, noscript, iframe, object, embed, applet) whose content is drawn from text, void tags, "
         "self-closing forms, nested removable elements (same and other names), unclosed tags, stray end tags, "
         "comments, CDATA, PIs; plus comment/decl/PI items; plus character soup; plus raw handler-call sequences. "
         "distinct = distinct (machine, handler-call sequence); non-trivial = the sequence enters a removed element "
-        "or contains a removable tag / comment")
+        "or contains a removable tag / comment.  HISTORIES: 2-4 such documents, each possibly ending inside a removed "
+        "element that is never closed (non-raw and raw-text names, nested same-name starts), in the middle of a tag / "
+        "comment / CDATA section (truncated), read as the chapters of one EPUB and as consecutive read_html / read_mhtml / "
+        "MSG-body calls of one process; every parser object the real readers create is observed (constructions, feeds, "
+        "state after each feed)")
 ASSUMPTIONS = [
     "html.parser.HTMLParser (CPython 3.12) turns text into handler calls; its tokenisation (incl. CDATA mode for "
     "script/style, lower-casing of tag names) is not modelled - the model starts at the handler calls",
@@ -35,6 +45,9 @@ ASSUMPTIONS = [
     "_HtmlTextExtractor / get_text() (tree -> text, whitespace clean-up) are outside the theorems; the end-to-end "
     "token oracle of this run exercises them",
     "MSG: the OLE container is stubbed (MsOxMessage replaced); the body goes through the real _html_to_text",
+    "histories: everything after the start tag of a removed element that is never closed counts as its content (as in "
+    "browsers); an incomplete construct at the end of a document (unterminated tag / comment / CDATA) is delivered by "
+    "HTMLParser.feed() as nothing at all (no close() is called by the readers)",
 ]
 TRUSTED = ["model of the class-specific handler rests (Tree.down, Epub.down) in S2T/Model/HtmlSkip.lean - tied by the "
            "complete-state comparison of this run, not used as a hypothesis by the generic theorems"]
@@ -649,11 +662,13 @@ WITNESSES = {
 
 def known_witnesses(ctx):
     vs = []
+    for name, hist in HISTORY_WITNESSES.items():
+        vs += _history_violations(hist, tag=f" [witness {name}]", shrink=False)
     for name, (h, vis, hid) in WITNESSES.items():
         body = "<html><body>" + h + "</body></html>"
         stripped = "<html><body><p>vis0000q</p><p>vis0001q</p></body></html>"
         vs += _violations_for({"html": body, "stripped": stripped, "visible": vis, "hidden": hid}, tag=f" [witness {name}]")
-    return vs
+    return _drop_explained(vs)
 
 
 # ----------------------------------------------------------------------------- malformed + direct streams
@@ -843,6 +858,7 @@ def correspondence(ctx):
             ctx.count(f"e2e/{path}")
             for kind, what in fs:
                 violations.append(_report(path, kind, what, items, tk, c))
+    _history_correspondence(ctx, broken, violations)
     return {"broken": broken, "violations": violations}
 
 
@@ -858,6 +874,488 @@ def _only_in_attr(items, tok):
     return True
 
 
+
+# ----------------------------------------------------------------------------- histories of documents
+# A "chapter" = {"doc": items, "tail": None | ["unclosed", tag, attrs, junk], "cut": str, "vis": [...], "hid": [...]}.
+# tail: the document ends inside a removed element that is never closed; cut: the text is truncated in the
+# middle of a markup construct (HTMLParser keeps the incomplete construct in its buffer and delivers nothing for it).
+NONRAW_REMOVABLE = tuple(t for t in SPEC_REMOVABLE if t not in RAWTEXT and t not in STD_VOID)
+CUTS = ["", "", "", '<object data="x', "<!-- never closed hidCUTq", "<![CDATA[ hidCUTq", '<p class="', "<", "</obj", "<iframe src=x",
+        "&am", "<?php hidCUTq"]
+
+
+def _never_closing(rng, tk, tag):
+    """content of an UNCLOSED removed element: same-name balanced junk with extra same-name start tags sprinkled in"""
+    junk = _junk(rng, tk, tag)
+    for _ in range(rng.choice((0, 0, 1, 2))):
+        junk.insert(rng.randint(0, len(junk)), ["s", tag, _attrs(rng)])
+    if rng.random() < 0.5:
+        junk.append(["d", tk.h()])
+    return junk
+
+
+def gen_chapter(rng, p_tail=0.5, **kw):
+    items, tk = gen_doc(rng, **kw)
+    tail, cut = None, ""
+    r = rng.random()
+    if r < p_tail * 0.7:
+        tag = rng.choice(NONRAW_REMOVABLE)
+        tail = ["unclosed", tag, _attrs(rng, tk.h()), _never_closing(rng, tk, tag)]
+    elif r < p_tail * 0.9:
+        tag = rng.choice(RAWTEXT)
+        tail = ["unclosed", tag, _attrs(rng), _raw_junk(rng, tk, tag) or [["d", tk.h()]]]
+    elif r < p_tail:
+        cut = rng.choice(CUTS)
+    if tail is not None and rng.random() < 0.25:
+        cut = rng.choice(CUTS)
+    return {"doc": items, "tail": tail, "cut": cut, "vis": list(tk.vis), "hid": list(tk.hid) + (["hidCUTq"] if "hidCUTq" in cut else [])}
+
+
+def render_chapter(ch, stripped=False):
+    s = render(ch["doc"], stripped=stripped)
+    if stripped:
+        return s
+    if ch["tail"] is not None:
+        _, tag, attrs, junk = ch["tail"]
+        body = "".join(_rev(e, raw=True) for e in junk) if tag in RAWTEXT else _rjunk(junk)
+        s += f"<{tag}{_rattrs(attrs)}>{body}"
+    return s + ch["cut"]
+
+
+def gen_history(rng):
+    n = rng.choice((2, 2, 3, 3, 4))
+    chs = [gen_chapter(rng, p_tail=rng.choice((0.4, 0.8)), p_hidden=rng.choice((0.15, 0.35)), blocks=rng.choice((1, 2, 3)),
+                       full=rng.random() < 0.5) for _ in range(n)]
+    if all(c["tail"] is None for c in chs[:-1]) and rng.random() < 0.8:  # most histories have a document that ends inside
+        tk = _Tok()
+        tk.hid = chs[0]["hid"]
+        tag = rng.choice(NONRAW_REMOVABLE + RAWTEXT)
+        chs[0]["tail"] = ["unclosed", tag, [], _never_closing(rng, tk, tag) if tag not in RAWTEXT else [["d", tk.h()]]]
+    # token names are per document: make them unique over the history
+    out = []
+    for i, c in enumerate(chs):
+        blob = json.dumps([c["doc"], c["tail"], c["cut"]])
+        ren = {t: t.replace("q", f"d{i}q") for t in c["vis"] + c["hid"]}
+        blob = re.sub(r"(vis|hid)(\d{4}|CUT)q", lambda m: ren.get(m.group(0), m.group(0)), blob)
+        doc, tail, cut = json.loads(blob)
+        out.append({"doc": doc, "tail": tail, "cut": cut, "vis": [ren[t] for t in c["vis"]], "hid": [ren[t] for t in c["hid"]]})
+    return out
+
+
+def history_case(chs):
+    return {"history": [{"html": render_chapter(c), "stripped": render_chapter(c, stripped=True), "visible": list(c["vis"]),
+                         "hidden": list(c["hid"])} for c in chs]}
+
+
+def wrap_epub_book(htmls):
+    bio = io.BytesIO()
+    with zipfile.ZipFile(bio, "w") as z:
+        z.writestr("mimetype", "application/epub+zip")
+        z.writestr("META-INF/container.xml",
+                   '<?xml version="1.0"?><container version="1.0" xmlns="urn:oasis:names:tc:opendocument:xmlns:container">'
+                   '<rootfiles><rootfile full-path="OEBPS/content.opf" media-type="application/oebps-package+xml"/></rootfiles></container>')
+        man = "".join(f'<item id="c{i}" href="c{i}.xhtml" media-type="application/xhtml+xml"/>' for i in range(1, len(htmls) + 1))
+        spine = "".join(f'<itemref idref="c{i}"/>' for i in range(1, len(htmls) + 1))
+        z.writestr("OEBPS/content.opf",
+                   '<?xml version="1.0"?><package xmlns="http://www.idpf.org/2007/opf" version="3.0" unique-identifier="id">'
+                   '<metadata xmlns:dc="http://purl.org/dc/elements/1.1/"><dc:title>B</dc:title><dc:identifier id="id">x</dc:identifier></metadata>'
+                   f'<manifest>{man}</manifest><spine>{spine}</spine></package>')
+        for i, h in enumerate(htmls, 1):
+            z.writestr(f"OEBPS/c{i}.xhtml", h.encode("utf-8"))
+    return bio.getvalue()
+
+
+def _extract_history(path, htmls):
+    """what the library extracts for each document of the history: the chapters of ONE book (epub) or consecutive
+    calls of the reader in this process (html, mhtml, msg).  None for a document that was not reported at all."""
+    if path != "epub":
+        return [_extract(path, h) for h in htmls]
+    from sharepoint2text.parsing.extractors.epub_extractor import read_epub
+    d = next(read_epub(io.BytesIO(wrap_epub_book(htmls)), path="t.epub"))
+    by_href = {}
+    for ch in d.chapters:
+        out = [ch.text, ch.title or ""]
+        for t in ch.tables:
+            for row in t:
+                out.append(" | ".join(row))
+        by_href[ch.href.rsplit("/", 1)[-1]] = "\n".join(out)
+    return [by_href.get(f"c{i}.xhtml") for i in range(1, len(htmls) + 1)]
+
+
+def _msg_wrap(h):
+    # prefix only: the document may end inside a removed element / an incomplete construct, which must stay its end
+    return h if h.startswith(("<!DOCTYPE", "<html")) else "<html><body>" + h
+
+
+def oracle_history(path, hist):
+    """The property statement on a HISTORY of documents: for every document, its visible text (all of it lies before the
+    place where the document ends inside a removed element) is extracted, no removed content of ANY document of the
+    history appears anywhere, and the result is that of the history with the removed elements deleted."""
+    docs = hist
+    if path == "msg":
+        docs = [dict(d, html=_msg_wrap(d["html"]), stripped=_msg_wrap(d["stripped"])) for d in hist]
+    try:
+        outs = _extract_history(path, [d["html"] for d in docs])
+    except Exception as e:
+        return [("raised", f"{path}: extraction of the history raised {type(e).__name__}: {e}")]
+    fails = []
+    all_hidden = [t for d in docs for t in d["hidden"]]
+    for i, (d, out) in enumerate(zip(docs, outs)):
+        if out == "BODY-NOT-TREATED-AS-HTML":
+            return []
+        if out is None:
+            fails.append(("visible-lost", f"{path}: document {i + 1} of {len(docs)} is not reported at all"))
+            continue
+        in_title = " ".join(_RE_TITLE.findall(d["html"]))
+        visible = [t for t in d["visible"] if not (path == "msg" and t in in_title)]
+        lost = [t for t in visible if t not in out]
+        leaked = [t for t in all_hidden if t in out]
+        if lost:
+            prev = [j + 1 for j in range(i) if _ends_inside(docs[j]["html"])]
+            fails.append(("visible-lost", f"{path}: document {i + 1} of {len(docs)}: visible text {lost[:4]} ({len(lost)} of "
+                          f"{len(visible)}) not extracted" + (f" (document(s) {prev} before it end inside a removed element)" if prev else "")))
+        if leaked:
+            fails.append(("hidden-leaked", f"{path}: document {i + 1} of {len(docs)}: removed content {leaked[:4]} appears in the extracted text"))
+    if not fails:
+        try:
+            refs = _extract_history(path, [d["stripped"] for d in docs])
+        except Exception as e:
+            return [("raised", f"{path}: extraction of the stripped history raised {type(e).__name__}")]
+        for i, (a, b) in enumerate(zip(outs, refs)):
+            same = (_squash(a) == _squash(b or "")) if path == "epub" else (a == b)
+            if not same:
+                fails.append(("not-transparent", f"{path}: document {i + 1} of {len(docs)}: extracted text differs from that of the "
+                              f"same history with the removed elements deleted"))
+                break
+    return fails
+
+
+def _ends_inside(html_text):
+    p = _logging_class("html")()
+    try:
+        p.feed(html_text)
+    except Exception:
+        return False
+    return p.skip_depth > 0 or bool(p.rawdata)
+
+
+# A failure that depends on what THIS process read before (a pooled / cached / class-level parser state) cannot be judged or
+# shrunk in this process, and its replay must fail in a NEW process: histories are confirmed and shrunk there.
+_FRESH = {"hist": 0, "single": 0, "confirmed": []}
+_FRESH_BUDGET = {"hist": 60, "single": 16}
+
+
+def _fresh_oracle(payload):
+    """kinds of failure of a replay payload ({"history":…,"path":…} or a single document) in a new interpreter; None = not run"""
+    import os
+    import subprocess
+    import sys as _sys
+    import tempfile
+    pool = "hist" if "history" in payload else "single"
+    if _FRESH[pool] >= _FRESH_BUDGET[pool]:
+        return None
+    _FRESH[pool] += 1
+    here = os.path.dirname(os.path.dirname(os.path.abspath(__file__)))
+    code = ("import sys, json, logging, warnings; logging.disable(logging.CRITICAL); warnings.filterwarnings('ignore')\n"
+            f"sys.path[:0] = [{here!r}, {os.environ.get('S2T_REPO', '/repo')!r}]\n"
+            "from props import c17\n"
+            "rep = json.load(open(sys.argv[1]))\n"
+            "if 'history' in rep:\n"
+            "    fs = c17.oracle_history(rep['path'], rep['history'])\n"
+            "else:\n"
+            "    fs = c17.oracle(rep['path'], rep['html'], rep.get('visible', []), rep.get('hidden', []), rep.get('stripped'))\n"
+            "print('C17FRESH ' + json.dumps(fs))\n")
+    with tempfile.NamedTemporaryFile("w", suffix=".json", delete=False) as fh:
+        json.dump(payload, fh)
+    try:
+        r = subprocess.run([_sys.executable, "-c", code, fh.name], capture_output=True, text=True, timeout=120)
+    except subprocess.TimeoutExpired:
+        return None
+    finally:
+        os.unlink(fh.name)
+    for line in r.stdout.splitlines():
+        if line.startswith("C17FRESH "):
+            return [tuple(x) for x in json.loads(line[9:])]
+    return None
+
+
+def _confirm_history(path, kind, what, hist, tag=""):
+    """Violation for a failing history: confirmed and shrunk in a new process where possible"""
+    fs = _fresh_oracle({"history": hist, "path": path})
+    if fs is None:
+        return _hist_violation(path, kind, what, hist, tag + " [not re-run in a new process: budget]")
+    if fs and not any(k == kind for k, _ in fs):  # in a new process the same history fails in another way: report that one
+        kind, what = fs[0]
+    if not fs:
+        return _hist_violation(path, kind, what, hist, tag + " [fails in this process only after the documents it had read before; "
+                               "the recorded history alone does not fail in a new process]")
+
+    def fails(h):
+        r = _fresh_oracle({"history": h, "path": path})
+        return r is not None and any(k == kind for k, _ in r)
+    cur = list(hist)
+    i = len(cur) - 1
+    while i >= 0 and len(cur) > 1:  # drop documents
+        cand = cur[:i] + cur[i + 1:]
+        if fails(cand):
+            cur = cand
+        i -= 1
+    for i, d in enumerate(list(cur)):  # minimal documents
+        for c in _minimal_docs(d):
+            cand = cur[:i] + [c] + cur[i + 1:]
+            if fails(cand):
+                cur = cand
+                break
+    r = _fresh_oracle({"history": cur, "path": path})
+    w = [w for k, w in (r or []) if k == kind]
+    if not w:
+        cur, w = hist, [w for k, w in fs if k == kind]
+    v = _hist_violation(path, kind, w[0], cur, tag)
+    _FRESH["confirmed"].append(v.key)
+    return v
+
+
+def _minimal_docs(d):
+    vis = d["visible"][:1]
+    out = []
+    if vis and _ends_inside(d["html"]):  # "<p>vis</p>" + the part after the last visible block
+        k = d["html"].rfind(d["visible"][-1])
+        k = d["html"].find("</p>", k)
+        if k >= 0:
+            tail = d["html"][k + 4:].replace("</body></html>", "")
+            out.append({"html": f"<p>{vis[0]}</p>" + tail, "stripped": f"<p>{vis[0]}</p>", "visible": vis,
+                        "hidden": [t for t in d["hidden"] if t in tail]})
+    if vis:
+        out.append({"html": f"<p>{vis[0]}</p>", "stripped": f"<p>{vis[0]}</p>", "visible": vis, "hidden": []})
+    return out
+
+
+def _drop_explained(vs):
+    """single-document violations that do NOT fail in a new process are consequences of what this process read before; when a
+    confirmed history violation explains them they are dropped (per key: the first two are re-run), otherwise they stay"""
+    if not _FRESH["confirmed"]:
+        return vs
+    out, verdict, tried = [], {}, {}
+    for v in vs:
+        rep = v.replay
+        if "history" in rep or "html" not in rep:
+            out.append(v)
+            continue
+        if verdict.get(v.key) == "keep":
+            continue  # one confirmed representative per key is enough (run.py prints one per key)
+        if tried.get(v.key, 0) >= 2:
+            continue
+        tried[v.key] = tried.get(v.key, 0) + 1
+        fs = _fresh_oracle(rep)
+        if fs is None or fs:
+            verdict[v.key] = "keep"
+            out.append(v)
+    return out
+
+
+def _hist_violation(path, kind, what, hist, tag=""):
+    rep = {"history": hist, "path": path}
+    first = next((d["html"] for d in hist if _ends_inside(d["html"])), hist[0]["html"])
+    return Violation(f"{path}.history.{kind}", what + tag + f" :: history of {len(hist)} documents, e.g. {first[-160:]!r}", rep)
+
+
+def _history_violations(hist, paths=PATHS, tag="", shrink=True):
+    vs = []
+    for path in paths:
+        for kind, what in oracle_history(path, hist):
+            vs.append(_confirm_history(path, kind, what, hist, tag) if kind != "raised" else _hist_violation(path, kind, what, hist, tag))
+    return vs
+
+
+# committed witnesses of Props/C17_Life.lean (wBookObject, wBookNested): they HOLD on a reader that makes a new parser per
+# document and fail on one whose parser's gate state survives into the next document
+HISTORY_WITNESSES = {
+    "book-object": [
+        {"html": '<p>vis0000d0q</p><object data="x"><param name="q"><p>hid0000d0q', "stripped": "<p>vis0000d0q</p>",
+         "visible": ["vis0000d0q"], "hidden": ["hid0000d0q"]},
+        {"html": "<p>vis0000d1q</p>", "stripped": "<p>vis0000d1q</p>", "visible": ["vis0000d1q"], "hidden": []}],
+    "book-nested": [
+        {"html": "<p>vis0000d0q</p><noscript><noscript>hid0000d0q</noscript>", "stripped": "<p>vis0000d0q</p>",
+         "visible": ["vis0000d0q"], "hidden": ["hid0000d0q"]},
+        {"html": "<p>vis0000d1q</p><script>hid0000d1q</script>", "stripped": "<p>vis0000d1q</p>", "visible": ["vis0000d1q"],
+         "hidden": ["hid0000d1q"]},
+        {"html": "<p>vis0000d2q</p>", "stripped": "<p>vis0000d2q</p>", "visible": ["vis0000d2q"], "hidden": []}],
+    "book-rawtext-cut": [
+        {"html": "<p>vis0000d0q</p><script>var hid0000d0q = '<p>", "stripped": "<p>vis0000d0q</p>",
+         "visible": ["vis0000d0q"], "hidden": ["hid0000d0q"]},
+        {"html": "<p>vis0000d1q</p><style>hid0000d1q</style><p>vis0001d1q</p><!-- hid0001d1q", "stripped": "<p>vis0000d1q</p><p>vis0001d1q</p>",
+         "visible": ["vis0000d1q", "vis0001d1q"], "hidden": ["hid0000d1q", "hid0001d1q"]},
+        {"html": "<table><tr><td>vis0000d2q</td></tr></table><p>vis0001d2q</p>", "stripped": "<table><tr><td>vis0000d2q</td></tr></table><p>vis0001d2q</p>",
+         "visible": ["vis0000d2q", "vis0001d2q"], "hidden": []}],
+}
+
+
+class _Spy:
+    """Replaces the two parser classes, in every loaded module of the package that refers to them, by logging subclasses and
+    records every construction and every feed (with the handler calls of that feed and the object state after it)."""
+
+    def __init__(self):
+        self.feeds = []   # (machine, object serial, feed number on that object, events of this feed, snapshot after it)
+        self.made = []    # (machine, serial)
+
+    def __enter__(self):
+        import sys as _sys
+        spy = self
+        self._saved = []
+        for machine, cls in _classes().items():
+            L = _logging_class(machine)
+
+            class S(L):
+                _m = machine
+
+                def __init__(self):
+                    super().__init__()
+                    self._c17_serial = len(spy.made)
+                    self._c17_nfeeds = 0
+                    spy.made.append((self._m, self._c17_serial))
+
+                def feed(self, data):
+                    k0 = len(self._c17_log)
+                    try:
+                        return super().feed(data)
+                    finally:
+                        self._c17_nfeeds += 1
+                        snap = _snapshot(self._m, self)
+                        snap["trace"] = snap["trace"][k0:]
+                        spy.feeds.append((self._m, self._c17_serial, self._c17_nfeeds, json.loads(json.dumps(self._c17_log[k0:])), snap))
+            S.__name__, S.__qualname__ = cls.__name__, cls.__qualname__
+            for mod in list(_sys.modules.values()):
+                if getattr(mod, "__name__", "").startswith("sharepoint2text") and getattr(mod, cls.__name__, None) is cls:
+                    self._saved.append((mod, cls.__name__, cls))
+                    setattr(mod, cls.__name__, S)
+        return self
+
+    def __exit__(self, *exc):
+        for mod, name, cls in self._saved:
+            setattr(mod, name, cls)
+        return False
+
+
+def _merge_text_items(items):
+    """adjacent visible text items are ONE run of character data for HTMLParser (one handle_data call)"""
+    out = []
+    for it in items:
+        if it[0] == "text" and out and out[-1][0] == "text":
+            out[-1] = ["text", out[-1][1] + it[1]]
+        else:
+            out.append(list(it))
+    return out
+
+
+def _history_correspondence(ctx, broken, violations):
+    """(D) histories: every feed of every parser object the real readers make = `run (init …)` of the model on that feed's
+    calls (a NEW parser per document: Props/C17_Life.lean, Gen/HtmlLife.lean), the class-specific state after it = the
+    right-hand side of `C17_book` (visible items before the unclosed tail); (E) the property oracle on the histories."""
+    rng = ctx.rng
+    import sharepoint2text.parsing.extractors.mail.msg_email_extractor  # noqa: F401  (loaded before the spy looks for the classes)
+    import sharepoint2text.parsing.extractors.mhtml_extractor  # noqa: F401
+    hists = [gen_history(rng) for _ in range(ctx.n(50, 1500))]
+    reqs, meta, book_reqs, book_meta = [], [], [], []
+    life_bad = 0
+    for hi, chs in enumerate(hists):
+        htmls = [render_chapter(c) for c in chs]
+        case = history_case(chs)
+        for reader in (("epub", "html", "msg", "mhtml") if hi % 3 == 0 else ("epub", "html")):
+            machine = "epub" if reader == "epub" else "html"
+            with _Spy() as spy:
+                try:
+                    _extract_history(reader, [_msg_wrap(h) for h in htmls] if reader == "msg" else htmls)
+                except Exception as e:
+                    ctx.count(f"history/{reader}/raised-{type(e).__name__}")
+                    continue
+            feeds = [f for f in spy.feeds if f[0] == machine]
+            ctx.count(f"history/{reader}")
+            ctx.case(("history", reader, json.dumps(htmls)))
+            # lifecycle as observed: one new object per document, fed once
+            serials = [f[1] for f in feeds]
+            if len(feeds) != len(htmls) or len(set(serials)) != len(serials) or any(f[2] != 1 for f in feeds):
+                life_bad += 1
+                if life_bad <= 4:
+                    broken.append(Broken("correspondence", "c17.lifecycle",
+                                         f"reader={reader}: {len(htmls)} documents were read with {len(set(serials))} parser object(s) and "
+                                         f"{len(feeds)} feed(s) (feeds per object: {[f[2] for f in feeds]}); the model is one new parser per document",
+                                         case=dict(case, reader=reader)))
+            for k, f in enumerate(feeds):
+                if not _jsonable(f[3]):
+                    continue
+                reqs.append({"op": "c17.run", "m": machine, "ev": f[3]})
+                meta.append((reader, k, len(feeds), f[4], case))
+            if reader in ("epub", "html") and len(feeds) == len(htmls):
+                book_reqs.append({"op": "c17.book", "m": machine, "chapters": [{"doc": _merge_text_items(c["doc"]), "tail": c["tail"]} for c in chs]})
+                book_meta.append((reader, chs, [f[3] for f in feeds], [f[4] for f in feeds], case))
+    outs = ctx.drive(reqs)
+    mism = 0
+    for (reader, k, n, snap, case), o in zip(meta, outs):
+        ctx.case(("history-feed", reader, k, json.dumps(snap, sort_keys=True)))
+        ctx.count("history/feed")
+        if snap["trace"] and snap["trace"][-1][0] > 0:
+            ctx.count("history/feed-ends-inside-removed")
+        if "drv_error" in o:
+            broken.append(Broken("correspondence", "driver", o["drv_error"], case=case))
+        elif o != snap:
+            mism += 1
+            if mism <= 6:
+                diff = [x for x in snap if snap[x] != o.get(x)]
+                broken.append(Broken("correspondence", "c17.run/history",
+                                     f"reader={reader}: state after the feed of document {k + 1} of {n} differs from the model's NEW parser "
+                                     f"fed with the same calls; fields differing: {diff}", case=dict(case, reader=reader)))
+    ctx.coverage["history_feed_mismatches"] = mism
+    bouts = ctx.drive(book_reqs)
+    bad = 0
+    for (reader, chs, evs, snaps, case), o in zip(book_meta, bouts):
+        ctx.count("history/spec")
+        if "drv_error" in o:
+            broken.append(Broken("correspondence", "driver", o["drv_error"], case=case))
+            continue
+        problems = []
+        for i, (c, sp) in enumerate(zip(chs, o["spec"])):
+            if not (sp["ok"] and sp["ok_html"] and sp["ok_epub"]):
+                problems.append(f"document {i + 1}: generated chapter is not SpecChapterOk / ChapterOk")
+            nd = sp["n_doc_events"]
+            real = _merge(evs[i])
+            want_prefix = _merge(sp["events"][:nd])
+            if real[:len(want_prefix)] != want_prefix:
+                problems.append(f"document {i + 1}: HTMLParser calls differ from the Spec events of the part before the tail")
+            elif c["tail"] is not None and (len(real) <= len(want_prefix) or real[len(want_prefix)][:2] != ["s", c["tail"][1]]):
+                problems.append(f"document {i + 1}: HTMLParser did not deliver the start tag of the unclosed element")
+            if sp["visible"] != [it[1] for it in _merge_text_items(c["doc"]) if it[0] == "text"]:
+                problems.append(f"document {i + 1}: visibleData differs")
+            got = {k2: v for k2, v in snaps[i].items() if k2 != "trace"}
+            if got != o["want"][i]:
+                which = "what ONE reused parser would hold" if got == o["reuse"][i] and o["reuse"][i] != o["fresh"][i] else "neither"
+                dk = [k2 for k2 in got if got[k2] != o["want"][i].get(k2)]
+                problems.append(f"document {i + 1}: class-specific state after the real feed differs from C17_book's right-hand side "
+                                f"(visible items before the unclosed tail fed to a new parser) in {dk} [{which}]: "
+                                f"{json.dumps(got[dk[0]])[-300:]} vs {json.dumps(o['want'][i].get(dk[0]))[-300:]}")
+            if o["fresh"][i] != o["want"][i]:
+                problems.append(f"document {i + 1}: model readBook differs from C17_book's right-hand side")
+        if problems:
+            bad += 1
+            if bad <= 4:
+                broken.append(Broken("correspondence", "c17.book", f"reader={reader}: " + "; ".join(problems[:4]), case=dict(case, reader=reader)))
+    ctx.coverage["history_spec_mismatches"] = bad
+    ctx.coverage["history_lifecycle_mismatches"] = life_bad
+    # (E) the property itself on histories, all four paths
+    seen_keys = set()
+    for hi, chs in enumerate(hists[:ctx.n(40, 600)]):
+        case = history_case(chs)
+        for path in PATHS if hi % 2 == 0 else ("epub", "html"):
+            ctx.case(("e2e-history", path, json.dumps([d["html"] for d in case["history"]])))
+            ctx.count(f"e2e-history/{path}")
+            for kind, what in oracle_history(path, case["history"]):
+                key = f"{path}.history.{kind}"
+                if key in seen_keys:
+                    continue
+                seen_keys.add(key)
+                violations.append(_confirm_history(path, kind, what, case["history"]) if kind != "raised"
+                                  else _hist_violation(path, kind, what, case["history"]))
+    violations[:] = _drop_explained(violations)
+
 # ----------------------------------------------------------------------------- search / replay
 def search(ctx, broken):
     """Property oracle on the real code: committed witnesses, the documents of broken cases, fresh token documents."""
@@ -872,7 +1370,18 @@ def search(ctx, broken):
         c = b.case or {}
         if "html" in c and "visible" in c:
             note(_violations_for(c))
+        if "history" in c:
+            note(_history_violations(c["history"]))
     rng = ctx.rng
+    for i in range(ctx.n(60, 1200)):
+        hist = history_case(gen_history(rng))["history"]
+        for path in PATHS if i % 3 == 0 else ("epub", "html"):
+            for kind, what in oracle_history(path, hist):
+                if f"{path}.history.{kind}" not in found:
+                    v = _confirm_history(path, kind, what, hist) if kind != "raised" else _hist_violation(path, kind, what, hist)
+                    found[v.key] = v
+        if any(".history." in k for k in found) and i >= 20:
+            break
     for i in range(ctx.n(400, 6000)):
         items, tk = gen_doc(rng, p_hidden=rng.choice((0.3, 0.6)), blocks=rng.choice((1, 2, 3)), full=rng.random() < 0.3)
         case = doc_case(items, tk)
@@ -889,11 +1398,17 @@ def search(ctx, broken):
                     found[key] = v
         if len(found) >= 6 and i > 150:
             break
-    return list(found.values())
+    return _drop_explained(list(found.values()))
 
 
 def replay(ctx, payload):
     rep = payload.get("replay", {})
+    if "history" in rep:
+        paths = [rep["path"]] if rep.get("path") in PATHS else list(PATHS)
+        fs = []
+        for p in paths:
+            fs += oracle_history(p, rep["history"])
+        return (not fs), "; ".join(w for _, w in fs) or f"property holds on the recorded history of {len(rep['history'])} documents ({', '.join(paths)})"
     if "html" not in rep:
         return False, "replay names a broken obligation, not an input: " + payload.get("what", "")
     paths = [rep["path"]] if rep.get("path") in PATHS else list(PATHS)
